@@ -128,3 +128,13 @@ Definition attach_all tps tpa tq1 tq0 (l : list graw) : list grow := map (attach
 Definition bare (l : list graw) : list grow := attach_all [] [] [] [] l.
 Definition Cfg (gn sS use sA : bool) (n_s n_a : Q) : gcfg :=
   {| gen := gn; stabS := sS; rx := use; stabA := sA; nS := n_s; nA := n_a |}.
+
+(* ---- the frames as the code of the fit methods sees them (argument types of the definitions regenerated from the source,
+   ZepidGen.Gen_gener_Q; GenProofs_gener proves those equal to the models above) *)
+Record scol := { sc_a : bool; sc_y : Q; sc_ipw : Q }.     (* a row of IPSW.sample: exposure, outcome, '__ipw__' *)
+Record acol := {                                            (* a row of AIPSW.df *)
+  ac_s : bool;         (* self.sample (boolean mask) *)
+  ac_a : bool;         (* exposure == 1 *)
+  ac_S : Q;            (* the selection column used arithmetically *)
+  ac_y : Q; ac_ipw : Q; ac_q1 : Q; ac_q0 : Q }.
+Record tcol := { tc_s : bool; tc_q1 : Q; tc_q0 : Q; tc_w : Q }.   (* a row of GTransportFormula.df: selection, predictions, weight *)
